@@ -524,7 +524,14 @@ class CustomSD(BaseCorrelations):
     def _parameters_key(self) -> tuple:
         """The current values of all parameters that determine the
         correlations (key for cached results). """
-        return (id(self.j_function), self.cutoff, self.cutoff_type,
+        # the function object itself, not its id: the id of a function that
+        # was replaced (and garbage collected) can be given to a new function
+        j_function_key = self.j_function
+        try:
+            hash(j_function_key)
+        except TypeError: # unhashable callable: never served from the cache
+            j_function_key = object()
+        return (j_function_key, self.cutoff, self.cutoff_type,
                 self.temperature)
 
     def eta_function(
